@@ -411,8 +411,23 @@ def descriptor_spec(desc: dict, formalism="helicity") -> dict | None:
     for vals in itertools.product(*[pools[e] for e in eids]):
         h = dict(zip(eids, vals))
         if all(abs(h[ch[0]] - h[ch[1]]) <= spin[att[pe]] for pe, ch in node_edges.values()):
-            transitions.append({"topology": top, "states": {e: [name[att[e]], h[e]] for e in eids},
-                                "nodes": {n: {"L2": NONE, "S2": NONE, "eta": eta[att[pe]]} for n, (pe, ch) in node_edges.items()}})
+            if formalism == "helicity":
+                transitions.append({"topology": top, "states": {e: [name[att[e]], h[e]] for e in eids},
+                                    "nodes": {n: {"L2": NONE, "S2": NONE, "eta": eta[att[pe]]} for n, (pe, ch) in node_edges.items()}})
+                continue
+            # canonical basis: every (L, S) with S in |s1-s2|..s1+s2, |lambda| <= S, L even <= 4 and (L, S, J) a triangle, at every
+            # node (the first two per node; no parity factor: the LS coefficients are independent)
+            per_node = []
+            for n, (pe, ch) in node_edges.items():
+                s1, s2, J = spin[att[ch[0]]], spin[att[ch[1]]], spin[att[pe]]
+                ls = [(n, L2, S2) for S2 in range(abs(s1 - s2), s1 + s2 + 1, 2) for L2 in (0, 2, 4)
+                      if _triangle(L2, S2, J) and abs(h[ch[0]] - h[ch[1]]) <= S2]
+                per_node.append(ls[:2])
+            if any(not x for x in per_node):
+                continue
+            for sel in itertools.product(*per_node):
+                transitions.append({"topology": top, "states": {e: [name[att[e]], h[e]] for e in eids},
+                                    "nodes": {n: {"L2": L2, "S2": S2, "eta": 0} for n, L2, S2 in sel}})
     if not transitions:
         return None
     return {"formalism": formalism, "particles": parts, "transitions": transitions,
